@@ -275,8 +275,16 @@ func IsEntityEqual(prevJson []byte, thisJson []byte, prevEntity *Entity, thisEnt
 		return false
 	}
 
-	// assuming that the length check is enough to determine that refs and props have the same keys
-	// it is theoretically possible to have the same json length with different keys ... consider matching keys in both objects as well.
+	// the length check alone does not determine that both versions have the same delete state,
+	// refs and props: e.g. an un-delete (which removes ,"deleted":true) combined with a new
+	// 15 byte property gives the same json length. So compare the delete state and make sure
+	// both objects have the same number of keys before matching the keys of the previous version.
+	if prevEntity.IsDeleted != thisEntity.IsDeleted {
+		return false
+	}
+	if len(prevEntity.References) != len(thisEntity.References) || len(prevEntity.Properties) != len(thisEntity.Properties) {
+		return false
+	}
 	for i, v := range prevEntity.References {
 		thisVal, ok := thisEntity.References[i]
 		if !ok {
